@@ -51,11 +51,11 @@ ORDER = {
     'ensures': [
         "distinct(result)",                                                      # once each
         "forall(v, Int, implies(0 <= v and v < len(result), result[v] in old(layers)))",   # same set: nothing invented
-        "forall(x, Layer, implies(x in old(layers), x in result))",               #           nothing lost
         "bases_first(result)",                                                   # never before one of its bases
     ],
-    # proved by the view runner.order_by_bases@unitfirst below (own, smaller invariants); callers may use it
-    'assumed_ensures': ["implies(UnitTests in old(layers), result[0] == UnitTests)"],
+    # proved by the views runner.order_by_bases@unitfirst / @complete below (own, smaller invariants); callers may use them
+    'assumed_ensures': ["implies(UnitTests in old(layers), result[0] == UnitTests)",
+                        "forall(x, Layer, implies(x in old(layers), x in result))"],               # nothing lost
     'loops': {
         '#loop1': [
             "forall(p, Int, implies(0 <= p and p < len(gathered), exists(j, Int, 0 <= j and j < _i and isanc(gathered[p], layers[j]))))",
@@ -71,6 +71,30 @@ ORDER = {
             "forall(u, Int, implies(0 <= u and u < _i and gathered[u] in setof(layers),"
             " exists(v, Int, 0 <= v and v < len(result) and result[v] == gathered[u])))",
             "bases_first(result)",
+        ],
+    },
+}
+
+ORDER_COMPLETE = {       # a third contract on the same function: nothing is lost (its own, minimal invariants)
+    'property': ['C01', 'C03', 'C05', 'C10'],
+    'params': {'layers': 'List[Layer]'},
+    'returns': 'List[Layer]',
+    'requires': ["WF()", "object not in layers"],
+    'modifies': [],
+    'locals': {'gathered': 'List[Layer]', 'seen': 'Dict[Layer,int]', 'result': 'List[Layer]'},
+    'ensures': ["forall(x, Layer, implies(x in old(layers), x in result))"],
+    'loops': {
+        '#loop1': [
+            "object not in layers",
+            "forall(j, Int, x, Layer, implies(0 <= j and j < _i and isanc(x, layers[j]), exists(p, Int, 0 <= p and p < len(gathered) and gathered[p] == x)))",
+            "forall(x, Layer, implies(x in old(layers), x in setof(layers)))",
+        ],
+        '#loop2': [
+            "forall(x, Layer, iff(x in seen, exists(u, Int, 0 <= u and u < _i and gathered[u] == x)))",
+            "forall(u, Int, implies(0 <= u and u < _i and gathered[u] in setof(layers),"
+            " exists(v, Int, 0 <= v and v < len(result) and result[v] == gathered[u])))",
+            "forall(x, Layer, implies(x in setof(layers), exists(u, Int, 0 <= u and u < len(gathered) and gathered[u] == x)))",
+            "forall(x, Layer, implies(x in old(layers), x in setof(layers)))",
         ],
     },
 }
@@ -489,6 +513,7 @@ def register(E):
     E.add_contract('runner.gather_layers', GATHER)
     E.add_contract('runner.order_by_bases', ORDER)
     E.add_contract('runner.order_by_bases@unitfirst', ORDER_UNITFIRST)
+    E.add_contract('runner.order_by_bases@complete', ORDER_COMPLETE)
     E.add_contract('runner.handle_layer_failure', HANDLE_FAILURE)
     E.add_contract('runner.setup_layer', SETUP)
     E.add_contract('runner.tear_down_unneeded', TEARDOWN)
